@@ -328,7 +328,15 @@ func TaxDump(r *rand.Rand, t *ref.TaxTree, shuffle, synonyms bool) (nodes, names
 	for _, a := range al {
 		fmt.Fprintf(&ab, "%d\t|\t%d\t|\n", a[0], t.Taxid[a[1]])
 	}
-	return nb.String(), mb.String(), ab.String()
+	nodes, names, merged = nb.String(), mb.String(), ab.String()
+	if r.Intn(4) == 0 {
+		// files written by other tools do not always end with a line feed: the last line counts
+		nodes, merged = strings.TrimSuffix(nodes, "\n"), strings.TrimSuffix(merged, "\n")
+		if r.Intn(2) == 0 {
+			names = strings.TrimSuffix(names, "\n")
+		}
+	}
+	return nodes, names, merged
 }
 
 // WriteTaxDump writes nodes.dmp, names.dmp and merged.dmp into dir.
